@@ -345,13 +345,22 @@ pub fn gen_case(t: &mut Tape, kind: Kind, invalid: bool) -> Case {
     Case { kind, text, expected: if inv.is_some() { None } else { Some(expected) }, invalid: inv, nparas: paras.len(), multiline, any_text: None }
 }
 
-const PERTURBATIONS: &[&str] = &["any-text:random-edits", "any-text:whitespace-only-continuation-line", "any-text:indented-hash-line", "any-text:value-of-another-field", "any-text:folded-value", "any-text:duplicated-field", "any-text:crlf", "any-text:cut", "any-text:multibyte-value"];
+/// Known finding: a typed printer puts a list item starting with '#' at the start of a continuation line, where every
+/// reader takes it for a comment (same root cause as KF-C07-hash-line).
+pub const KF_HASH_LINE: &str = "KF-C20-hash-line";
+
+const PERTURBATIONS: &[&str] = &["any-text:random-edits", "any-text:whitespace-only-continuation-line", "any-text:indented-hash-line", "any-text:value-of-another-field", "any-text:folded-value", "any-text:duplicated-field", "any-text:crlf", "any-text:cut", "any-text:multibyte-value", "any-text:hash-token-inside-a-value"];
 
 /// A perturbed document of the given kind: mostly still accepted by the typed reader, no longer "well-formed" in
 /// the sense of the field tables.
-pub fn perturb(t: &mut Tape, kind: Kind) -> Case {
+pub fn perturb(t: &mut Tape, kind: Kind, avoid_hash: bool, excluded: &mut u32) -> Case {
     let base = gen_case(t, kind, false);
-    let how = t.below(PERTURBATIONS.len());
+    let mut how = t.below(PERTURBATIONS.len());
+    if how == 9 && avoid_hash {
+        // the trigger of the listed finding KF-C20-hash-line is excluded by construction (two lanes still generate it)
+        how = 4;
+        *excluded += 1;
+    }
     let lines: Vec<String> = base.text.split_inclusive('\n').map(|s| s.to_string()).collect();
     let text = match how {
         0 => crate::gen::text::mutate(t, &base.text, crate::props::c01::WEIGHTED, 3),
@@ -407,6 +416,20 @@ pub fn perturb(t: &mut Tape, kind: Kind) -> Case {
             l.insert(at, dup);
             l.concat()
         }
+        9 => {
+            // a later token of some value starts with '#': harmless on the line it stands on, but a comment if a printer
+            // moves it to the start of a continuation line
+            let chars: Vec<char> = base.text.chars().collect();
+            let blanks: Vec<usize> = (1..chars.len().saturating_sub(1)).filter(|&i| chars[i] == ' ' && chars[i - 1] != '\n' && chars[i - 1] != ':' && chars[i - 1] != ' ' && chars[i + 1] != '\n' && chars[i + 1] != ' ').collect();
+            if blanks.is_empty() {
+                base.text.clone()
+            } else {
+                let b = blanks[t.below(blanks.len())];
+                let mut c = chars.clone();
+                c.insert(b + 1, '#');
+                c.into_iter().collect()
+            }
+        }
         6 => base.text.replace('\n', "\r\n"),
         7 => {
             let chars: Vec<char> = base.text.chars().collect();
@@ -447,21 +470,35 @@ impl PropImpl for C20 {
         ]
     }
     fn expected_labels(&self) -> Vec<&'static str> {
-        vec!["kind:control", "kind:copyright", "kind:apt-release", "kind:apt-source", "kind:apt-package", "kind:removal", "kind:buildinfo", "kind:dep3", "kind:apt-sources", "invalid:no-source-paragraph", "invalid:two-source-paragraphs", "invalid:paragraph-of-neither-kind", "invalid:not-starting-with-format", "invalid:missing-mandatory-field", "well-formed", "has-comment", "has-multi-line-value", "dep3-mail-header-form", "any-text:accepted", "any-text:rejected", "any-text:random-edits", "any-text:whitespace-only-continuation-line", "any-text:indented-hash-line", "any-text:value-of-another-field", "any-text:folded-value", "any-text:duplicated-field", "any-text:crlf", "any-text:cut", "any-text:multibyte-value"]
+        vec!["kind:control", "kind:copyright", "kind:apt-release", "kind:apt-source", "kind:apt-package", "kind:removal", "kind:buildinfo", "kind:dep3", "kind:apt-sources", "invalid:no-source-paragraph", "invalid:two-source-paragraphs", "invalid:paragraph-of-neither-kind", "invalid:not-starting-with-format", "invalid:missing-mandatory-field", "well-formed", "has-comment", "has-multi-line-value", "dep3-mail-header-form", "any-text:accepted", "any-text:rejected", "any-text:random-edits", "any-text:whitespace-only-continuation-line", "any-text:indented-hash-line", "any-text:value-of-another-field", "any-text:folded-value", "any-text:duplicated-field", "any-text:crlf", "any-text:cut", "any-text:multibyte-value", "any-text:hash-token-inside-a-value"]
     }
     fn budget(&self, tier: Tier) -> Budget {
-        Budget { cases_per_lane: if tier == Tier::Quick { 7500 } else { 40_000 }, tape_max: 600, cpu_s: 10 }
+        Budget { cases_per_lane: if tier == Tier::Quick { 22500 } else { 90000 }, tape_max: 600, cpu_s: 10 }
     }
     fn spaces(&self, _tier: Tier) -> Vec<Space> {
         vec![]
     }
-    fn decode(&self, _ctx: &mut Ctx, t: &mut Tape) -> Case {
+    fn decode(&self, ctx: &mut Ctx, t: &mut Tape) -> Case {
         let kind = KINDS[t.below(KINDS.len())];
         if t.chance(1, 4) {
-            return perturb(t, kind);
+            let avoid = ctx.avoid(KF_HASH_LINE);
+            let mut excluded = 0;
+            let c = perturb(t, kind, avoid, &mut excluded);
+            ctx.excluded_known += excluded;
+            return c;
         }
         let invalid = t.chance(1, 5) && kind != Kind::Dep3;
         gen_case(t, kind, invalid)
+    }
+    fn finding_of(&self, case: &Case, f: &crate::Failure) -> Option<&'static str> {
+        if case.any_text.is_none() || !["reparse-equal", "reparse-accepts", "second-print-identical"].contains(&f.assertion.as_str()) {
+            return None;
+        }
+        // trigger: the typed value read from the text prints a continuation line that starts with '#'
+        match parse_kind(case.kind, &case.text) {
+            Ok(v) if v.print.split('\n').any(|l| (l.starts_with(' ') || l.starts_with('\t')) && l.trim_start_matches([' ', '\t']).starts_with('#')) => Some(KF_HASH_LINE),
+            _ => None,
+        }
     }
     fn classify(&self, ctx: &mut Ctx, case: &Case) {
         ctx.set_hash(&(format!("{:?}", case.kind), &case.text));
